@@ -5,6 +5,24 @@ HERE = os.path.dirname(os.path.dirname(os.path.abspath(__file__)))
 ALL = ['C%02d' % i for i in range(1, 21)]
 
 CLAIMED = {
+ 'C13': dict(
+    level='model_checking',
+    text='Two TLA+ oracles decide the debugger\'s `print <expr>`. (1) QB.tla: generated programs (records, arrays, CONSTs, STATIC and SHARED '
+         'variables, by-reference parameters, recursion) are compiled with -g and driven through qvm/dbg.py with a line breakpoint on every '
+         'PRINT statement that stands alone on its line; at each stop every call-free item of that statement is put to the debugger, then '
+         'the statement runs. The session\'s event trace with those items REPLACED by the debugger\'s answers is validated by Trace_QB.tla, '
+         'so an answer that differs from the specification\'s value of the expression in the specification\'s state is rejected exactly like '
+         'a wrong printed value. (2) Trace_DebugEval.tla states the agreement relation over all probes with exact values (also the '
+         'non-dyadic ones outside the exact-float window of QBValues.tla, which half of the programs are augmented with): the answer '
+         'equals the value the program then prints; "no value yet" is accepted; unknown names and far-out-of-range subscripts must be '
+         'reported as evaluation errors; no question may change the machine-state digest; no host exception may escape, also after the '
+         'program has finished; on a procedure header reached by `step` (CALL executed, FRAME not yet) callee-local names have no value and '
+         'caller names still have the value printed just before the call. Four fixed programs cover every storage class by construction '
+         '(parameters by reference incl. records and arrays, locals, STATIC scalars and arrays, SHARED, global and local CONST, nested '
+         'records, arrays of records, multi-dimensional and dynamic arrays, fractional subscripts, DEFtype names, recursion depth).',
+    note='Trusted: TLC, the event observer (typed values read from the operand stack), the parser of the debugger\'s textual answer (exact: Python repr round-trips; -0.0 and 0.0 are one value). Expressions containing calls are not asked (the debugger cannot call). "does not have a value yet" is accepted for any expression (the property speaks of assigned variables).',
+    technique='trace validation against QB.tla with the debugger\'s answers substituted into the recorded events + TLA+ agreement relation over probes',
+    design='6 C13'),
  'C12': dict(
     level='model_checking',
     text='Debugger.tla defines the debugger as a transition system over a recorded free run of a -g module (position in the run, set of '
